@@ -108,7 +108,7 @@ func execMink(r *rand.Rand, e *MinkEv) {
 	e.Ok = true
 	s2, _ := callMink(e.Pattern, e.Path, e.Closed, e.Sum)
 	e.Sol2Same = equalPaths(e.Sol, s2)
-	e.ArgsSame = equalPaths(Paths{p0, q0}, Paths{e.Pattern, e.Path})
+	e.ArgsSame = equalPaths(Paths{p0, q0}, Paths{e.Pattern, e.Path}) && argsUnchanged()
 	e.SolSwap = Paths{}
 	if e.Closed && e.Sum && len(e.Path) >= 3 && len(e.Pattern) >= 3 {
 		e.SolSwap, _ = callMink(e.Path, e.Pattern, true, true)
